@@ -362,6 +362,45 @@ def run(chk):
             {"kind": "MeanFieldDynamics.add (whole record)", "times": ts, "systems": nsys}, ("mfdrec", tuple(ts), nsys))
         chk.count("MeanFieldDynamics.add")
 
+    # ---- (c3) the time axes of compute_correlations / compute_correlations_nt: an interval given as a pair of floats, in either
+    # direction, covers exactly the grid points start_time + k dt between its end points, both included; a list or a slice of steps
+    # gives exactly those steps --------------------------------------------------------------------------------------------
+    from oqupy.process_tensor import SimpleProcessTensor
+    for i in range(10 if thorough else 5):
+        Nc = rng.randint(4, 7)
+        dtc = rng.choice([0.1, 0.25, 1.0 / 3.0])
+        t0c = rng.choice([0.0, 0.5, -1.3])
+        ptc = SimpleProcessTensor(2, dt=dtc)
+        for k_ in range(Nc):
+            ptc.set_mpo_tensor(k_, np.ones((1, 1, 4), dtype=complex))
+        for k_ in range(Nc + 1):
+            ptc.set_cap_tensor(k_, np.ones(1, dtype=complex))
+        a_, b_ = sorted(rng.sample(range(Nc + 1), 2))
+        c_, d_ = sorted(rng.sample(range(Nc + 1), 2))
+        descending_a = (i % 2 == 0)
+        ta = (t0c + b_ * dtc, t0c + a_ * dtc) if descending_a else (t0c + a_ * dtc, t0c + b_ * dtc)
+        want_a = list(range(b_, a_ - 1, -1)) if descending_a else list(range(a_, b_ + 1))
+        spec_b, want_b = rng.choice([((t0c + d_ * dtc, t0c + c_ * dtc), list(range(d_, c_ - 1, -1))), ([d_, c_], [d_, c_]),
+                                     (slice(c_, d_ + 1), list(range(c_, d_ + 1))), ((t0c + c_ * dtc, t0c + d_ * dtc), list(range(c_, d_ + 1)))])
+        info = {"kind": "correlation time axes", "dt": dtc, "start": t0c, "N": Nc, "times_a": repr(ta), "times_b": repr(spec_b)}
+        chk.search_cases += 1
+        chk.count("correlation_axes")
+        chk.case(info, ("corr-axes", Nc, dtc, t0c, repr(ta), repr(spec_b)))
+        sx_ = oqupy.operators.sigma("x")
+        try:
+            tt, cc = quiet(oqupy.compute_correlations, oqupy.System(0.3 * sx_), ptc, sx_, oqupy.operators.sigma("z"), ta, spec_b, time_order="ordered",
+                           initial_state=oqupy.operators.spin_dm("y+"), start_time=t0c, progress_type="silent")
+            got_a = [int(round((t_ - t0c) / dtc)) for t_ in tt[0]]
+            got_b = [int(round((t_ - t0c) / dtc)) for t_ in tt[1]]
+            exact = all(abs(t_ - (t0c + k_ * dtc)) < 1e-12 for t_, k_ in zip(tt[0], got_a)) and all(abs(t_ - (t0c + k_ * dtc)) < 1e-12 for t_, k_ in zip(tt[1], got_b))
+            shape_ok = tuple(np.shape(cc)) == (len(want_a), len(want_b))
+        except Exception as ex:
+            chk.fail("correlation-axes-raise", f"compute_correlations with times {ta!r} / {spec_b!r} raises {ex!r}", info)
+            continue
+        if got_a != want_a or got_b != want_b or not exact or not shape_ok:
+            chk.fail("correlation-axes", f"compute_correlations: the returned time axes are steps {got_a} / {got_b} (array shape {tuple(np.shape(cc))}); requested "
+                     f"{want_a} / {want_b} (every grid point between the end points, both included, in the direction given)", info)
+
     # ---- (d) tcut <-> dkmax, PtTebd.time ---------------------------------------------------
     for i in range(60 if thorough else 25):
         dts = rng.choice(DT_LITS)
